@@ -164,15 +164,15 @@ pub fn judge(ctx: &mut Ctx, m: &MSym, perms: &[Vec<usize>], k: usize) {
 pub fn run(cfg: &Cfg) -> Report {
     let mut report = Report::new(cfg);
     let seed = cfg.seed;
-    let (nmax, vmax) = cfg.tier.pick((4, 5), (5, 5));
+    let (nmax, vmax) = cfg.tier.pick((5, 5), (6, 5));
     let mut symbols: Vec<MSym> = vec![];
     for s in gen::connected_sets_upto(2, nmax) {
         gen::for_all_branchings(&s, &|_, _| (1..=vmax).collect(), &mut |x| symbols.push(x.clone()));
     }
     // bigger sets with sampled branchings incl. two-digit values
     let mut rng0 = Rng::stream(seed, 8);
-    for s in gen::connected_sets_upto(2, cfg.tier.pick(6, 7)) {
-        for _ in 0..cfg.tier.pick(3, 12) {
+    for s in gen::connected_sets_upto(2, cfg.tier.pick(7, 8)) {
+        for _ in 0..cfg.tier.pick(6, 24) {
             let mut x = s.clone();
             for (i, _, members, _) in gen::adjacent_orbits(&s) {
                 let v = *rng0.pick(&[1usize, 1, 2, 3, 4, 6, 10, 12, 15]);
